@@ -1,0 +1,114 @@
+//! Verification hooks. Compiled only with `--cfg ashyanspada_expression_engine_rs_verif`.
+//! Nothing in here changes the behaviour of the engine; it only exports private state.
+use crate::define::Result;
+use crate::token::Token;
+use crate::tokenizer::Tokenizer;
+
+pub use crate::descriptor::DescriptorManager;
+
+/// Token kinds: 0 operator, 1 delim, 2 number, 3 comma, 4 bool, 5 string,
+/// 6 reference, 7 function, 8 semicolon.
+pub fn tokenize(input: &str) -> Result<Vec<(u8, String, usize, usize)>> {
+    crate::init::init();
+    let mut tokenizer = Tokenizer::new(input);
+    let mut ans = Vec::new();
+    loop {
+        let tok = tokenizer.next()?;
+        let item = match tok {
+            Token::Operator(s, sp) => (0u8, s.to_string(), sp.0, sp.1),
+            Token::Delim(ty, sp) => (1u8, ty.string(), sp.0, sp.1),
+            Token::Number(d, sp) => (
+                2u8,
+                format!(
+                    "{}:{}:{}",
+                    if d.is_sign_negative() { 1 } else { 0 },
+                    d.mantissa().unsigned_abs(),
+                    d.scale()
+                ),
+                sp.0,
+                sp.1,
+            ),
+            Token::Comma(s, sp) => (3u8, s.to_string(), sp.0, sp.1),
+            Token::Bool(b, sp) => (4u8, b.to_string(), sp.0, sp.1),
+            Token::String(s, sp) => (5u8, s.to_string(), sp.0, sp.1),
+            Token::Reference(s, sp) => (6u8, s.to_string(), sp.0, sp.1),
+            Token::Function(s, sp) => (7u8, s.to_string(), sp.0, sp.1),
+            Token::Semicolon(s, sp) => (8u8, s.to_string(), sp.0, sp.1),
+            Token::EOF => break,
+        };
+        ans.push(item);
+    }
+    Ok(ans)
+}
+
+/// bit0 whitespace, bit1 delim, bit2 param (identifier) char, bit3 digit-run char;
+/// bits 4.. : 1 + kind of the token obtained by tokenizing the one-character string
+/// (0 = no token / EOF, 15 = error).
+pub fn char_class(ch: char) -> u8 {
+    let bits = crate::tokenizer::verif_char_bits(ch);
+    let s = ch.to_string();
+    let kind = match tokenize(&s) {
+        Ok(v) => match v.first() {
+            Some(t) => 1 + t.0,
+            None => 0,
+        },
+        Err(_) => 15,
+    };
+    bits | (kind << 4)
+}
+
+pub struct RegistryDump {
+    /// (name, precedence, is_setter, is_right)
+    pub infix: Vec<(String, i32, bool, bool)>,
+    pub prefix: Vec<String>,
+    pub postfix: Vec<String>,
+    pub functions: Vec<String>,
+}
+
+pub fn dump_registries() -> RegistryDump {
+    crate::init::init();
+    let mut infix = Vec::new();
+    for (name, prec) in crate::operator::InfixOpManager::new().operators() {
+        let cfg = crate::operator::InfixOpManager::new().get(&name).unwrap();
+        let setter = match cfg.1 {
+            crate::operator::InfixOpType::SETTER => true,
+            crate::operator::InfixOpType::CALC => false,
+        };
+        let right = cfg.2 == crate::operator::InfixOpAssociativity::RIGHT;
+        infix.push((name, prec, setter, right));
+    }
+    infix.sort();
+    let mut prefix = crate::operator::PrefixOpManager::new().verif_names();
+    prefix.sort();
+    let mut postfix = crate::operator::PostfixOpManager::new().verif_names();
+    postfix.sort();
+    let mut functions: Vec<String> = crate::function::InnerFunctionManager::new()
+        .store
+        .lock()
+        .unwrap()
+        .keys()
+        .cloned()
+        .collect();
+    functions.sort();
+    RegistryDump {
+        infix,
+        prefix,
+        postfix,
+        functions,
+    }
+}
+
+static INIT_PROBE: std::sync::Mutex<Option<fn(u8)>> = std::sync::Mutex::new(None);
+
+/// Install a probe that `init()` calls with the stage number (0 = before the first
+/// registration stage, 4 = after the last) on the initialising thread.
+pub fn set_init_probe(f: fn(u8)) {
+    *INIT_PROBE.lock().unwrap() = Some(f);
+}
+
+pub(crate) fn init_probe(stage: u8) {
+    let p = *INIT_PROBE.lock().unwrap();
+    if let Some(f) = p {
+        f(stage);
+    }
+}
